@@ -410,6 +410,9 @@ SHAPES = {
     # sleeping node: child 0 covered by the desired state, child 1 presented after the wake-up
     "sleep": dict(sleeping=True, queue=1,
                   children=[dict(values=2, covered=True), dict(values=1, covered=False)]),
+    # a sleeping node that presented a library version between the table versions
+    "sleep_v21": dict(sleeping=True, queue=1, node_version="2.1.0",
+                      children=[dict(values=2, covered=True), dict(values=1, covered=False)]),
     "sleep2": dict(sleeping=True, queue=2,
                    children=[dict(values=2, covered=True), dict(values=1, covered=True)]),
     # node that presented an older protocol version than the gateway is configured for
